@@ -183,7 +183,7 @@ func runC12(b *mon.B) {
 			wg.Add(1)
 			go func(ci int) {
 				defer wg.Done()
-				rc := newRefConn(ref, round*64+ci+1, key)
+				rc := newRefConn(ref, (round*64+ci)%60000+1, key)
 				for _, q := range plans[ci] {
 					fl := 0
 					if q.Clear {
